@@ -667,6 +667,7 @@ class Ctx(_Base):
     def __init__(self, timeout_ms=60000):
         self.solver = z3.Solver()
         self.solver.set("timeout", timeout_ms)
+        self.timeout_ms = timeout_ms
         self.prefix = []
         self.trace = []
         self.queries = 0
@@ -693,6 +694,14 @@ class Ctx(_Base):
         self.queries += 1
         t = time.time()
         r = self.solver.check(*extra)
+        if r == z3.unknown:
+            # a time-out on a loaded machine is not a verdict: ask once more with four times the budget
+            self.notes["solver-retries"] = self.notes.get("solver-retries", 0) + 1
+            self.solver.set("timeout", self.timeout_ms * 4)
+            try:
+                r = self.solver.check(*extra)
+            finally:
+                self.solver.set("timeout", self.timeout_ms)
         self.solver_s += time.time() - t
         if r == z3.unknown:
             self.aborted = "solver unknown: %s" % self.solver.reason_unknown()
